@@ -27,20 +27,47 @@ RULE = ("mock mappers over random symmetric multigraph neighbour arrays (rings, 
         "AbstractLinearObjFuncList (Constant / ConstantZeroth / Zeroth or None), a plain LinearObj (Zeroth or None), every order of every "
         "list, regularization_matrix and regularization_matrix_reduced (fresh and cached); kernel schemes on EXTENDED meshes (60-150 points, "
         "spacing 1/2-3/4 of the scale, separations 5.5-18 scale lengths: rectangular blocks and strips, staggered point sets), every covariance "
-        "entry against the profile table, SPD observed with margins. Non-trivial = at least 3 parameters and 2 neighbour pairs / cross rows; distinct = distinct JSON input.")
+        "entry against the profile table (RELATIVE 1e-11), SPD observed with margins. PHASE 3: (ii) Delaunay meshes with ONE VERTEX OF DEGREE "
+        "21..40 (a vertex inside a ring, exact or jittered; a lone vertex facing a dense arc), all schemes that read the neighbour table, and on "
+        "EVERY real Delaunay mesh Mesh2DDelaunay.neighbors against delaunay.simplices / vertex_neighbor_vertices (case KDelNb: exactly the edge "
+        "set, symmetric, padding -1) and the shape of the split-cross table; (i) READ-ORDER HISTORIES ON ONE real inversion (aa.Inversion, mapping and "
+        "w-tilde formalism, 4 settings combinations, all objects regularized / mixed / single / kernel scheme; with and without "
+        "Preloads(regularization_matrix=...)): regularization_matrix, regularization_matrix_reduced, log_det_regularization_matrix_term, "
+        "regularization_term, curvature_reg_matrix(_reduced), log_det_curvature_reg_matrix_term, reconstruction(_reduced) read in 9 orders, "
+        "EVERY observation against the specification (block assembly of the matrices fresh objects' schemes return; regularization_term = "
+        "s^T H s, case KTerm; log det; F + H), arrays handed out re-checked at the end, bytes of the preload before/after, the objects' own "
+        "matrices afterwards; (a)(c)(d) REUSE / EDIT histories: one scheme object on a second, different linear object (same or different "
+        "parameter count) and on the first again, its coefficients edited in place and re-read, one linear object given a second scheme "
+        "(LinearObj.regularization_matrix read twice), the adapt image edited in place, every scheme call repeated on the same real mapper, "
+        "fingerprints of the neighbour arrays / signals / mapping arrays / mesh / adapt image against an untouched twin; (b) derived adapt "
+        "images (arithmetic after .native) and derived Delaunay meshes (arithmetic after the triangulation was read); (e) coefficients 2^-20 .. "
+        "2^-12 (squares around and far below the 1e-8 ridge) and 2^12, 2^20 for every scheme, tiny / tied / zero signals and adapt images "
+        "(2^-40, 2^40, all equal, zeros), anisotropic pixel scales with a shifted origin and non-square data at the class layer; all matrix "
+        "comparisons RELATIVE to the scale of the entry (sqrt(H_aa H_bb)); PIXEL SIGNALS: mapper.pixel_signals_from on every real mapper "
+        "whose scheme reads signals and mapper_util.adaptive_pixel_signals_from directly (single-vertex and interpolated rows, padded rows, "
+        "pixels nobody maps to, powers 0..3, zeros / ties / 2^-34 data, out-of-range index / size / slim -> exception) against the model (case "
+        "KSignals). Non-trivial = at least 3 parameters and 2 neighbour pairs / cross rows (high-degree meshes: a vertex of degree > 20); "
+        "distinct = distinct JSON input.")
 EXHAUSTIVE = {"quick": "rectangular_neighbors_from: all shapes 1..8 x 1..8", "thorough": "rectangular_neighbors_from: all shapes 1..12 x 1..12"}
 TRUSTED = ["hand-written Gallina model coq/Model/C07.v (update lists in the code's loop order + scatter), tied to /repo by this "
-           "correspondence run, evaluated inside Coq by vm_compute at exact rationals; comparison tolerance 1e-11*(1+|v|) because the "
-           "1e-8 ridge is not a dyadic number (all other generated quantities are dyadic, so only the diagonal is inexact)",
-           "scipy.linalg.block_diag and numpy.delete modelled by contract; scipy.spatial.Delaunay / find_simplex are oracles whose "
-           "outputs (neighbour lists, split-cross tables) are fed to both sides, their symmetry / distinctness being checked per case",
-           "pixel signals (real power **signal_scale, division by the maximum) are taken from the implementation and are an input of the model",
+           "correspondence run, evaluated inside Coq by vm_compute at exact rationals; comparison tolerance 1e-11 RELATIVE to the scale of "
+           "the entry, (a-b)^2 <= 1e-22 |H_aa| |H_bb|, because the 1e-8 ridge is not a dyadic number (all other generated quantities of the "
+           "mock streams are dyadic, so only the diagonal is inexact there)",
+           "scipy.linalg.block_diag and numpy.delete modelled by contract; scipy.spatial.Delaunay / find_simplex are oracles: the neighbour "
+           "table is checked against delaunay.simplices on every real mesh (and proved to be the edge relation GIVEN the documented contract "
+           "of vertex_neighbor_vertices, which is itself checked per case: vnv_ok); split-cross tables are fed to both sides, their "
+           "distinctness being checked per case (and proved given valid simplices, through property C06's model of the mapping routine)",
+           "pixel signals: modelled (adaptive_pixel_signals_from) for integer powers; the mapping arrays (pix_indexes / sizes / weights / "
+           "slim index: property C06's subject) are taken from the implementation",
            "extended-mesh kernel cases: the returned covariance matrix is handed to Coq as indexes into the list of its distinct values "
-           "(exact; decoded inside Coq); its inverse is checked in Python only (contract to 1e-4, eigenvalue margins)"]
+           "(exact; decoded inside Coq); its inverse is checked in Python only (contract to 1e-4, eigenvalue margins)",
+           "read-order histories: log-determinants and F + H are compared in Python (numpy slogdet of the specification's matrix; a fresh "
+           "inversion's curvature matrix); the regularization term is compared inside Coq at 1e-9 of the sum of the absolute terms"]
 ASSUMPTIONS = ["real arithmetic (no rounding): theorems over R with the ridge a parameter eps > 0",
-               "neighbour lists symmetric and in range (proved for nothing but checked on every generated mesh); split-cross rows have "
-               "distinct vertices and at least one vertex",
-               "GaussianKernel / ExponentialKernel: see level_note (partial)"]
+               "neighbour lists symmetric and in range: proved for rectangular meshes of every shape and, given scipy's contract for "
+               "vertex_neighbor_vertices, for every Delaunay mesh; checked on every generated mesh; split-cross rows have distinct "
+               "vertices and at least one vertex: proved for Delaunay meshes given valid simplices",
+               "GaussianKernel / ExponentialKernel: see level_note (partial beyond 2 points / 3 points exponential)"]
 
 SCHEMES = ["Constant", "ConstantZeroth", "Zeroth", "AdaptiveBrightness", "BrightnessZeroth", "ConstantSplit", "AdaptiveBrightnessSplit"]
 COEFS = ["1/4", "1/2", "1", "3/2", "2", "3", "5/4"]
@@ -625,6 +652,12 @@ def run_delaunay(aa, inp):
     r["extra_coq"] = list(r.get("extra_coq") or []) + [t]
     if not ok: r["py_ok"] = False; r.setdefault("detail", {})["neighbors"] = "not the edge set of delaunay.simplices"
     if inp.get("derived") and not same(np.asarray(dm), np.array(pts, dtype=float)): r["py_ok"] = None; r["kind"] += ":inexact"
+    # the split-cross table has the shape the model [split_table] gives it: 4 rows per vertex, 3 mapping columns + a column of -1 / 0.0
+    sc = mapper.pix_sub_weights_split_cross
+    scm, scs, scw = np.asarray(sc.mappings), np.asarray(sc.sizes), np.asarray(sc.weights)
+    if not (scm.shape == (4 * len(pts), 4) and scw.shape == scm.shape and scs.shape == (4 * len(pts),) and bool(np.all(scm[:, 3] == -1))
+            and bool(np.all(scw[:, 3] == 0.0)) and bool(np.all((scs == 1) | (scs == 3)))):
+        r["py_ok"] = False; r.setdefault("detail", {})["split_table"] = "not 4 rows per vertex of 3 mappings + (-1, 0.0)"
     r["out"]["max_degree"] = deg
     if inp.get("mesh"): r["nontrivial"] = deg > 20
     return r
